@@ -225,6 +225,10 @@ def one_history(hist):
     E = lambda path, kw, val: {"path": path, "kw": kw, "args": [f'"{val}"'], "mode": "keyed"}  # noqa: E731
     prof = c2profile.C2Profile.from_text('stage { set userwx "false"; }')
     units = [("stage", [E(["stage"], "userwx", "false")])]
+    # two bystanders - another profile and an empty one - are read between the accesses: a view belongs to its profile
+    other_prof = c2profile.C2Profile.from_text('set useragent "bystander"; dns-beacon { set maxdns "200"; }')
+    other_entries = [E([], "useragent", "bystander"), E(["dns-beacon"], "maxdns", 200)]
+    empty_prof = c2profile.C2Profile()
     n = 0
     for step in hist:
         n += 1
@@ -263,6 +267,12 @@ def one_history(hist):
                 return [("stale_or_wrong_view", n, [s.get("m", "as_dict") for s in hist[:n]], pr[:2])]
             if prof.properties is not prof.as_dict() and prof.properties != prof.as_dict():
                 return [("properties_alias_differs", n)]
+            ob = core.guarded(lambda: (copy.deepcopy(other_prof.as_dict()), copy.deepcopy(empty_prof.as_dict())), seconds=60)
+            if ob[0] != "ok" or compare(ob[1][0], other_entries) or ob[1][1]:
+                return [("view_of_another_profile_disturbed", n, str(ob)[:200])]
+            again = core.guarded(lambda: copy.deepcopy(prof.as_dict()), seconds=60)
+            if again[0] != "ok" or compare(again[1], entries):
+                return [("view_changed_by_reading_another_profile", n, [s.get("m", "as_dict") for s in hist[:n]])]
     return []
 
 
